@@ -12,6 +12,7 @@ import (
 	"strconv"
 	"strings"
 	"sync"
+	"time"
 
 	"storj.io/drpc"
 	"storj.io/drpc/drpcerr"
@@ -37,6 +38,7 @@ import (
 //	'Z' start a goroutine that issues CloseSend concurrently with what follows
 //	'u' send one message that the peer's decoder rejects
 //	'Q' Size goroutines receive until an error, concurrently; wait for all
+//	'w' sleep Size milliseconds (real time: only for options that are about real time)
 //	'v' receive one message through RawRecv and keep the returned slice (checked later: it must not change)
 type Act struct {
 	Op   byte
@@ -365,6 +367,8 @@ func (x *Exec) runActs(l *RPCLog, side byte, st drpc.Stream, acts []Act, cancel 
 			l.end(ev, st.MsgSend(&m, payload.Enc{}))
 		case 'r':
 			recv()
+		case 'w':
+			time.Sleep(time.Duration(a.Size) * time.Millisecond)
 		case 'v':
 			ev := l.begin(side, "recv", 0, 0)
 			rr, ok := st.(interface{ RawRecv() ([]byte, error) })
